@@ -208,10 +208,17 @@ def _expected(label, proto, like, meta, seed_parts):
     feeds_list = P.gen_inputs(ref, ["in"] + list(seed_parts))
     names = [v.name for v in ref.graph.input if v.name not in {i.name for i in ref.graph.initializer}]
     exp = []
+    try:
+        sess = runner.ort_session(ref)
+    except Exception as e:
+        return None, f"discarded_unrunnable: load: {type(e).__name__}: {e}"[:300], None
     for feeds in feeds_list:
-        st, out = runner.ort_run(ref, dict(zip(names, feeds)))
-        if st != "ok":
-            return None, f"discarded_unrunnable: {st}: {str(out)[:200]}", None
+        try:
+            out = P.guarded_run(sess, dict(zip(names, feeds)), limit=10.0)
+        except P.NonTermination:
+            return None, "discarded_unrunnable: original does not terminate (generator bug)", None
+        except Exception as e:
+            return None, f"discarded_unrunnable: run: {type(e).__name__}: {e}"[:300], None
         exp.append(out)
     return ref, feeds_list, exp
 
